@@ -6,6 +6,7 @@ DT   arrays that hold float game values are not allocated with an integer dtype 
 VW   (= G6 of C17, scoped to the anchor files) results of view-returning getters of the game are never mutated in place
 OBS  gap functions and everything they call on the game they were given are pure observers of that game
 RS   a flat sequence produced by a doubly nested comprehension is reshaped with the outer loop as the first axis
+TD   an integer-valued option is never tested for truth to decide whether it was given (0 is a value, None is "unset")
 """
 from __future__ import annotations
 
@@ -331,3 +332,68 @@ def rule_reshape_order(prog: Program, col: Collector) -> None:
                 col.undecidable(ref.where(e.node), ref.short, f"cannot relate reshape axes ({short(d1, 30)}, {short(d2, 30)}) to the comprehension's iterables")
     if n == 0:
         col.ok("-", "anchor files", "no reshape of nested-comprehension results (positive control matched)")
+
+
+def _int_options(prog: Program) -> tuple[set[str], dict[str, set[str]]]:
+    """(attribute names of class-level fields annotated int / int | None, {function qual: parameter names annotated int | None})."""
+    fields: set[str] = set()
+    params: dict[str, set[str]] = {}
+    for m in prog.modules.values():
+        if "/tests/" in m.rel():
+            continue
+        for d in m.defs.values():
+            if isinstance(d, ast.ClassDef):
+                for n in d.body:
+                    if isinstance(n, ast.AnnAssign) and isinstance(n.target, ast.Name):
+                        ann = ast.unparse(n.annotation).replace(" ", "")
+                        if ann in ("int", "int|None", "Optional[int]", "None|int"):
+                            fields.add(n.target.id)
+    for ref in prog.all_functions():
+        ps = set()
+        a = ref.node.args
+        for arg in a.posonlyargs + a.args + a.kwonlyargs:
+            if arg.annotation is not None and ast.unparse(arg.annotation).replace(" ", "") in ("int|None", "Optional[int]", "None|int"):
+                ps.add(arg.arg)
+        if ps:
+            params[ref.qual] = ps
+    return fields, params
+
+
+def rule_truthiness_defaults(prog: Program, col: Collector) -> None:
+    files = scope_files(prog, col.property_id)
+    col.rule("TD", "an integer option (dataclass field or parameter typed int | None) is compared with None, never tested for truth, when a default is substituted", 0)
+    fields, params = _int_options(prog)
+    if "seed" not in fields or "run_steps_limit" not in fields:
+        raise AnalysisError(f"TD: integer option fields not found (got {sorted(fields)[:8]})")
+    n = bad = 0
+    for ref in prog.all_functions():
+        if ref.module.rel() not in files:
+            continue
+        ft = fterms(prog, ref)
+        mine = params.get(ref.qual, set())
+
+        def is_option(t) -> bool:
+            return isinstance(t, tuple) and ((t[0] == "attr" and t[2] in fields and t[1][0] in ("param", "attr", "global")) or (t[0] == "param" and t[1] in mine))
+        seen = set()
+        for ev in ft.events:
+            # `x or default` anywhere in a value
+            for v in ev.data.values():
+                if isinstance(v, tuple):
+                    for t in subterms(v):
+                        if t[0] == "bool" and t[1] == "or" and t[2] and is_option(t[2][0]) and t not in seen:
+                            seen.add(t)
+                            n += 1
+                            bad += 1
+                            col.violation(ref.where(ev.node), ref.short, f"truthiness-default:{short(t[2][0], 30)}", f"`{short(t, 70)}` substitutes the default for every falsy value, 0 included",
+                                          "0 is a legal value of an integer option (seed 0, step limit 0, size bound 0): treating it as 'unset' silently runs another configuration "
+                                          "than the one asked for, and two components that read the option differently disagree")
+            # `if x:` / `if not x:` / `a if x else b` on the option itself
+            for f in ev.ctx:
+                if f[0] == "if" and is_option(f[1]) and (id(f[3]) if len(f) > 3 else repr(f[1])) not in seen:
+                    seen.add(id(f[3]) if len(f) > 3 else repr(f[1]))
+                    n += 1
+                    bad += 1
+                    col.violation(ref.where(ev.node), ref.short, f"truthiness-test:{short(f[1], 30)}", f"branch on the truth value of the integer option {short(f[1], 40)}",
+                                  "0 is a legal value of an integer option: `if not limit` / `if seed` confuse it with None")
+    if bad == 0:
+        col.ok("-", "scope", f"no truthiness test or `or`-default on the integer options {sorted(fields)[:6]}... or on int | None parameters")
